@@ -10,8 +10,8 @@ import vrun
 from gen import Gen
 from common import cerberus, cerrors, real_error, canon_errors
 
-LEVEL = "translation_validation"
-COQ_FILES = ["theories/Model/Handler.v"]
+LEVEL = "proof"
+COQ_FILES = ["theories/Model/Handler.v", "theories/Proofs/HandlerProofs.v", "theories/Properties/C13.v"]
 FACT_GROUPS = ["F8", "F10"]
 ALLOWED_AXIOMS = []
 TRUSTED_BASE = [
